@@ -22,35 +22,75 @@ def _debug_reads(fn: Fn) -> List[ast.AST]:
     return out
 
 
-def _value_when_debug(test, level: int):
-    """Truth value of a pure debug test for a given level (None if the test is not a pure function of the level)."""
-    import copy
+_PURE_NODES = (ast.Compare, ast.BoolOp, ast.UnaryOp, ast.Constant, ast.And, ast.Or, ast.Not, ast.Eq, ast.NotEq, ast.Lt, ast.LtE,
+               ast.Gt, ast.GtE, ast.Is, ast.IsNot, ast.Load, ast.USub, ast.BinOp, ast.Add, ast.Sub, ast.IfExp, ast.In, ast.NotIn,
+               ast.Tuple, ast.List, ast.Set, ast.Expression)
+
+
+def debug_aliases(fn: Fn) -> Dict[str, ast.expr]:
+    """Single-assignment locals whose value is a pure function of the debug level (`lvl = context.debug`,
+    `quiet = context.debug < 2`, `verbose = not quiet`): name -> defining expression."""
+    from ..fold import local_env
+    env = local_env(fn)
+    out: Dict[str, ast.expr] = {}
+    changed = True
+    while changed:
+        changed = False
+        for k, e in env.items():
+            if k in out:
+                continue
+            if _value_when_debug(e, 0, out, need_const=False) is not _IMPURE:
+                out[k] = e
+                changed = True
+    return out
+
+
+_IMPURE = object()
+
+
+def _value_when_debug(test, level: int, aliases: Optional[Dict[str, ast.expr]] = None, need_const=True):
+    """Value of a pure debug expression for a given level (None / _IMPURE if it is not a pure function of the level).
+    With need_const (tests) the result is a truth value or None."""
+    aliases = aliases or {}
 
     class Sub(ast.NodeTransformer):
         ok = True
+        seen_level = False
 
         def visit_Attribute(self, node):
             if text(node) in DEBUG_ATTRS:
+                self.seen_level = True
                 return ast.copy_location(ast.Constant(level), node)
             self.ok = False
             return node
 
         def visit_Name(self, node):
+            if node.id in aliases and isinstance(node.ctx, ast.Load):
+                self.seen_level = True
+                return self.visit(ast.parse(ast.unparse(aliases[node.id]), mode="eval").body)
+            if node.id in ("True", "False", "None"):
+                return node
             self.ok = False
             return node
 
         def visit_Call(self, node):
+            if isinstance(node.func, ast.Name) and node.func.id in ("int", "bool") and len(node.args) == 1 and not node.keywords:
+                return self.visit(node.args[0]) if node.func.id == "int" else ast.UnaryOp(op=ast.Not(), operand=ast.UnaryOp(op=ast.Not(), operand=self.visit(node.args[0])))
             self.ok = False
             return node
 
     sub = Sub()
     e = sub.visit(ast.parse(ast.unparse(test), mode="eval").body)
-    if not sub.ok or not any(isinstance(n, ast.Constant) for n in ast.walk(e)):
-        return None
+    bad = _IMPURE if not need_const else None
+    if not sub.ok or not sub.seen_level:
+        return bad
+    if not all(isinstance(n, _PURE_NODES) for n in ast.walk(e)):
+        return bad
     try:
-        return bool(eval(compile(ast.fix_missing_locations(ast.Expression(e)), "<debug-test>", "eval"), {"__builtins__": {}}))
+        v = eval(compile(ast.fix_missing_locations(ast.Expression(e)), "<debug-test>", "eval"), {"__builtins__": {}})
     except Exception:
-        return None
+        return bad
+    return bool(v) if need_const else v
 
 
 def _is_presentation_stmt(st, marker_names: Set[str]) -> bool:
@@ -91,10 +131,13 @@ def _marker_names(fn: Fn) -> Set[str]:
     cands = {k for k, vs in defs.items() if k not in fn.params and all(
         v is not None and (isinstance(v, (ast.List, ast.Tuple, ast.Constant, ast.Name)) or
                            (isinstance(v, ast.Call) and text(v.func) in ("list", "tuple") and not v.args)) for v in vs)}
+    # names that are pure functions of the debug level (aliases) only feed level tests: their upkeep is presentation too
+    fixed = set(debug_aliases(fn))
+    cands |= fixed
     changed = True
     while changed:
         changed = False
-        for name in sorted(cands):
+        for name in sorted(cands - fixed):
             ok = all(isinstance(v, ast.Name) and v.id in cands or not isinstance(v, ast.Name) for v in defs[name])
             for n in walk_fn(fn.node):
                 if not ok:
@@ -149,6 +192,9 @@ def rule_debug(run, prog):
             continue
         g = cfg_of(fn)
         markers = _marker_names(fn)
+        aliases = debug_aliases(fn)
+        # reads of an alias of the level count as reads of the level
+        reads = reads + [n for n in walk_fn(fn.node) if isinstance(n, ast.Name) and n.id in aliases and isinstance(n.ctx, ast.Load)]
         # 1. each read is in a pure test, a print, or the constructor's own store
         for r in reads:
             n_reads += 1
@@ -158,7 +204,7 @@ def rule_debug(run, prog):
                 st = parent(st)
             test = next((a.test for a in ancestors(r) if isinstance(a, (ast.If, ast.While, ast.IfExp)) and _inside(r, a.test)), None)
             if test is not None:
-                pure = _value_when_debug(test, 0) is not None
+                pure = _value_when_debug(test, 0, aliases) is not None
                 if not pure:
                     # mixed test: everything it controls must be presentation only
                     iff = next(a for a in ancestors(r) if isinstance(a, (ast.If, ast.While, ast.IfExp)) and _inside(r, a.test))
@@ -170,6 +216,8 @@ def rule_debug(run, prog):
                     run.ob("R-16.1", key, True, "pure level test", r)
                 continue
             in_print = any(isinstance(a, ast.Call) and (text(a.func) == "print" or text(a.func).endswith("dprint")) for a in ancestors(r))
+            if isinstance(st, ast.Assign) and len(st.targets) == 1 and isinstance(st.targets[0], ast.Name) and st.targets[0].id in aliases:
+                in_print = True        # the definition of an alias; its uses are checked as reads
             run.ob("R-16.1", key, in_print,
                    f"the debug level flows into `{text(st, 60)}`: it is used as data, not only to decide about printing", r)
         # 2. level-dependent regions
@@ -177,7 +225,7 @@ def rule_debug(run, prog):
             blocked = {}
             for node in g.nodes:
                 if node.kind == "test":
-                    vals = {_value_when_debug(node.ast, l) for l in levels}
+                    vals = {_value_when_debug(node.ast, l, aliases) for l in levels}
                     if None in vals:
                         continue
                     if vals == {True}:
@@ -253,7 +301,7 @@ def enclosing_test_or_stmt(n):
 # one value the option is allowed to set (debug level, added_value).
 
 TREE = {
-    "a.c": "int a; @E\n\t@N \n", "b.h": "#define X 1\n", "zz.c": "int\tx; @E  \r\nlast line without newline  @N",
+    "a.c": "int a; @E\n\t@N \n", "b.h": "#define X 1\n", "zz.c": "\ufeffint\tx; @E  \n\u00fc last line without newline  @N",
     "sub": {"c.c": "@N\n"},
 }
 BASE_ARGS = ["a.c", "b.h", "sub"]
@@ -664,7 +712,7 @@ def rule_pipeline(run, prog):
     run.rule("R-16.5", "single pipeline, on abstract runs of __main__: every selected file - named, found in a directory or "
              "given inline - goes through exactly one Lexer(...), one Context(...) built from that file and its tokens, and one "
              "registry.run(...), in that order; File derives basename / name / type from the path alone and File.source hands "
-             "the given text, or the content of the file, to the lexer unchanged (tabs, trailing blanks, CR LF, no final newline)", floor=4)
+             "the given text, or the content of the file, to the lexer unchanged (tabs, trailing blanks, non-ASCII letters, a leading U+FEFF, no final newline)", floor=4)
     main = prog.fn("__main__.py::main")
     runs = _Runs(prog)
     text_ = TREE["zz.c"]
@@ -727,7 +775,8 @@ def rule_pipeline(run, prog):
         raise AnalysisError(f"File.__init__ is outside the evaluable subset: {e}")
     run.ob("R-16.5", f"{fi.key}::derivation", bad is None, f"File.__init__ derives its fields otherwise: {bad}", fi.node)
     bad = None
-    texts = ["int\ta;\n", "x \t \n", "a\r\nb\r\n", "no newline at the end", "", "\tü\t\n\n\n", "  lead"]
+    # (no CR: reading a file translates line ends, which the pinned tree does as well)
+    texts = ["int\ta;\n", "x \t \n", "no newline at the end", "", "\t\u00fc\t\n\n\n", "  lead", "\ufeffint a;\n", "\n\n  \n", "a\x0cb\x0b\n"]
     for i, t in enumerate(texts):
         tree = {"t.c": t}
         o1 = runs.run(["t.c"], tree=tree)
